@@ -120,7 +120,6 @@ def agg_triggers(spec, ref_rows):
             nn = [x for x in vals if x is not None]
             # SUM/AVG skip the rows in which the expression is unbound (pinned by the repository's test_agg_undef); the aggregate should have no value
             if name in ("SUM", "AVG") and unbound_rows: t.add("C08-sum-avg-skip-unbound")
-            if name == "AVG" and any((R.num(x) or (9,))[0] == 2 for x in nn): t.add("C08-avg-float-promotion")
     return t
 
 
@@ -149,7 +148,6 @@ def run_case(case, st=None):
         # rdflib computes every aggregate for every group, also for the groups HAVING removes
         carve |= agg_triggers(spec, [(None, None, None, grp) for grp in R.groups_of(spec, ctx)])
         if R.STATS["str_of_bnode"]: carve.add("C08-str-of-bnode")
-        if R.STATS["float_arithmetic"]: carve.add("C08-avg-float-promotion")
     for x in carve: st.setdefault("_known", {})[x] = 1
     if carve:
         return None
